@@ -49,8 +49,8 @@ CONFINE = {
     "rdc_basic_zero": "fb_rdc_basic|*|zero-result|crash:*",
     "srt_quick_srtp": "fb_srt_quick|*|srtp|crash:*",
     "fix_basic_long": "eb_mul_fix_basic|*|*long|crash:*",
-    "sim_trick_unit": "eb_mul_sim_trick|*|u|crash:*",
-    "sim_joint_long_m": "eb_mul_sim_joint|*|long:m|crash:*",
+    "sim_trick_unit": "eb_mul_sim_trick|*|u*|crash:*",
+    "sim_joint_long_m": "eb_mul_sim_joint|*long:m|crash:*",
 }
 
 
@@ -353,6 +353,28 @@ class FieldPart(object):
             if not alias:
                 self.unchanged(self.a, x)
 
+    def is_srtp(self, f):
+        """fb_srtn_low takes its pentanomial path (fb_srtp_low) when all three middle exponents are odd"""
+        mid = [i for i in range(1, self.m) if (f >> i) & 1]
+        return len(mid) == 3 and all(i & 1 for i in mid)
+
+    def sacrificial(self, fld, F):
+        """the single directed case of every confined known fatal class (before any other work of shard 0)"""
+        ctx, R, B = self.ctx, self.R, self.B
+        if "srt_quick_srtp" in self.confined and self.is_srtp(F.f) and self.has("fb_srt_quick"):
+            with Case(ctx, "fb_srt_quick|%s|srtp" % fld, [hx(5)]) as go:
+                if go:
+                    B.fb_put(self.a, 5)
+                    if self.no_error(R.call("fb_srt_quick", self.c, self.a)):
+                        self.out_fb(self.c, F.sqrt(5))
+        if "rdc_basic_zero" in self.confined and self.has("fb_rdc_basic"):
+            with Case(ctx, "fb_rdc_basic|%s|zero-result" % fld, [hx(0)]) as go:
+                if go:
+                    ctypes.memset(self.dv, 0, B.dvsz)
+                    B.fb_fill(self.c, R.poison)
+                    if self.no_error(R.call("fb_rdc_basic", self.c, self.dv)):
+                        self.out_fb(self.c, 0)
+
     def run_field(self, fld, F, N):
         ctx, R, B, rng, m = self.ctx, self.R, self.B, self.rng, self.m
         F2 = GF2m2(F)
@@ -373,28 +395,13 @@ class FieldPart(object):
                ["mul_dig"] * 2)
         # iterated-squaring tables are expensive to build: a few exponents per worker, many elements each
         itr_tabs = {}
-        # fb_srtn_low takes its pentanomial path (fb_srtp_low) when all three middle exponents are odd
-        mid = [i for i in range(1, m) if (f >> i) & 1]
-        srtp = len(mid) == 3 and all(i & 1 for i in mid)
+        srtp = self.is_srtp(f)
         quick_srt = [fn for fn in srts if impl_of(R, fn) == "fb_srt_quick"]
         srt_off = srtp and "srt_quick_srtp" in self.confined and bool(quick_srt)
         if srt_off:
-            # known fatal: one sacrificial case, afterwards everything that reaches fb_srt_quick is stepped around
-            if ctx.shard == 0:
-                with Case(ctx, "fb_srt_quick|%s|srtp" % fld, [hx(5)]) as go:
-                    if go:
-                        B.fb_put(self.a, 5)
-                        if self.no_error(R.call("fb_srt_quick", self.c, self.a)):
-                            self.out_fb(self.c, F.sqrt(5))
+            # known fatal: after the sacrificial case everything that reaches fb_srt_quick is stepped around
             srts = [fn for fn in srts if fn not in quick_srt]
         srt_dep = srt_off and impl_of(R, "fb_srt") == "fb_srt_quick"     # fb_itr_* with b < 0 call fb_srt
-        if "rdc_basic_zero" in self.confined and ctx.shard == 0 and "fb_rdc_basic" in rdcs:
-            with Case(ctx, "fb_rdc_basic|%s|zero-result" % fld, [hx(0)]) as go:
-                if go:
-                    ctypes.memset(self.dv, 0, B.dvsz)
-                    B.fb_fill(self.c, R.poison)
-                    if self.no_error(R.call("fb_rdc_basic", self.c, self.dv)):
-                        self.out_fb(self.c, 0)
         delems = [0, 1, 2, 3, 1 << (m - 1), B.mask, (1 << (m - 1)) | 1, f & B.mask]
         # every variant of every unary operation sees the distinguished elements first (split over the shards)
         directed = [(o, fn, x) for o, fns in (("inv", invs), ("sqr", sqrs), ("srt", srts), ("trc", trcs), ("slv", slvs))
@@ -813,24 +820,36 @@ def run_field_part(ctx, R, B):
         raise RuntimeError("no field polynomial of degree %d in relic_fb.h" % B.m)
     N = ctx.n(9000, 120000)
     seen = []
-    for nm, v in ids:
+
+    def activate(nm, v):
         ok = False
         with Case(ctx, "fb_param_set|%s" % nm, [v], nontrivial=False, budget=600) as go:
             if go:
                 r = R.call("fb_param_set", v)
                 ok = ctx.check(not r.caught, None, {"err": r.err})
         if not ok:
-            continue
+            return None
         f = read_poly(R, B)
         if f.bit_length() != B.m + 1:
             if B.m % R.DIG == 0:
                 f |= 1 << B.m
             else:
                 raise RuntimeError("fb_poly_get() has degree %d" % (f.bit_length() - 1))
+        return f
+    fields = {}
+    for nm, v in ids:
+        f = activate(nm, v)
+        if f is None:
+            continue
         F = GF2m(f)     # raises when f is reducible
         F.trace_mask()
+        fields[nm] = F
         seen.append({"id": nm, "poly": hx(f)})
-        fp.run_field(nm, F, N // len(ids))
+        if ctx.shard == 0:
+            fp.sacrificial(nm, F)
+    for nm, v in ids:
+        if nm in fields and activate(nm, v) is not None:
+            fp.run_field(nm, fields[nm], N // len(fields))
     ctx.note("field_polynomials", seen)
     ctx.note("functions_not_built", sorted(fp.not_built))
     ctx.add("fb_slv_trace1_inputs_not_judged", fp.slv_tr1)
@@ -1279,8 +1298,12 @@ class CurvePart(PointIO):
         reps = [self.rep_for(cv, d, "P") for d in ds]
         alias = rng.randrange(2)
         kinds = set(cv.pcls(d) for d in ds)
-        infs = sorted(set(r for d, r in zip(ds, reps) if cv.pcls(d) == "inf"))
-        cls = ("inf-" + "".join(infs)) if infs else ("tors" if kinds & {"o2", "o4"} else "fin")
+        infs = "inf" in kinds
+        cls = "inf" if infs else ("tors" if kinds & {"o2", "o4"} else "fin")
+        # out of place: the destination may hold anything, e.g. a stale affine point
+        stale = (not alias) and rng.random() < 0.3
+        if stale:
+            cls += ",dst-tagged-affine"
         key = "eb_norm_sim|%s|%s|n%s|alias%d" % (cv.name, cls, "1" if n == 1 else ">1", alias)
         with Case(ctx, key, {"P": [dshow(d) for d in ds], "reps": reps}, nontrivial=not infs) as go:
             if go:
@@ -1291,6 +1314,9 @@ class CurvePart(PointIO):
                         self.put(cv, t + i * B.ebsz, cv.aff(ds[i]), reps[i])
                     if not alias:
                         B.eb_fill(r, R.poison, n)
+                        if stale:
+                            for i in range(n):
+                                self.put(cv, r + i * B.ebsz, cv.G, "B")
                     if self.no_error(self.call("eb_norm_sim", r, t, n)):
                         for i in range(n):
                             if not self.expect(cv, r + i * B.ebsz, cv.aff(ds[i]), what="value", affine=True):
@@ -1478,6 +1504,381 @@ def run_curve_part(ctx, R, B):
     ctx.add("eb_hlv_returned_the_other_half_on_cofactor_4", cp.hlv_other)
 
 
+
+# ===================================================================================== scalar multiplication
+class MulPart(PointIO):
+    def __init__(self, ctx, R, B):
+        PointIO.__init__(self, ctx, R, B)
+        self.p, self.q, self.r = B.eb_new(), B.eb_new(), B.eb_new()
+        self.k, self.m = R.bn_new(), R.bn_new()
+        self.not_built = set()
+        self.confined = load_confined()
+        self.stepped = 0
+        X = B.X
+        self.tabsz = {"basic": X["RLC_EB_TABLE_BASIC"], "combs": X["RLC_EB_TABLE_COMBS"],
+                      "combd": X["RLC_EB_TABLE_COMBD"], "lwnaf": X["RLC_EB_TABLE_LWNAF"]}
+        self.capbits = R.BN_BITS
+
+    def has(self, fn):
+        if self.R.has(fn):
+            return True
+        self.not_built.add(fn)
+        return False
+
+    # ------------------------------------------------------------------ scalars
+    def scalar(self, cv, hostile=0.4):
+        rng, n, m = self.rng, cv.n, self.B.m
+        if rng.random() > hostile:
+            return rng.randrange(1, n)
+        c = rng.randrange(24)
+        if c == 0:
+            return 0
+        if c == 1:
+            return rng.choice([1, -1])
+        if c == 2:
+            return rng.choice([2, 3, -2, 4, 5, 7, 8, 15, 16])
+        if c == 3:
+            return n - rng.choice([1, 2, 3])
+        if c == 4:
+            return n
+        if c == 5:
+            return n + rng.choice([1, 2])
+        if c == 6:
+            return rng.choice([2, 3, 4]) * n + rng.choice([-1, 0, 1])
+        if c == 7:
+            return -(n + rng.choice([-1, 0, 1]))
+        if c == 8:
+            return 1 << rng.randrange(1, cv.nbits - 1)
+        if c == 9:
+            return (1 << rng.randrange(2, cv.nbits)) - 1
+        if c == 10:
+            return int("a" * ((cv.nbits + 3) // 4), 16) % n
+        if c == 11:
+            return int("5" * ((cv.nbits + 3) // 4), 16) % n
+        if c == 12:
+            return -rng.randrange(1, n)
+        if c == 13:     # n <= k < 2^bits(n)
+            return rng.randrange(n, 1 << cv.nbits)
+        if c == 14:     # bits(n) < bits(k) <= m
+            return rng.getrandbits(m) | (1 << rng.randrange(cv.nbits, m))
+        if c == 15:     # just beyond the field size
+            return rng.getrandbits(m + 8) | (1 << rng.randrange(m, m + 8))
+        if c == 16:
+            return rng.choice([1 << m, (1 << m) - 1, (1 << (m + 1)) - 1, 1 << (m - 1), (1 << (m + 2)) - 1, 1 << (m + 2)])
+        if c == 17:
+            return rng.getrandbits(rng.choice([300, 320, 400, 512]))
+        if c == 18:
+            return rng.getrandbits(self.capbits) | (1 << (self.capbits - 1))
+        if c == 19:
+            return n * n
+        if c == 20:
+            return -rng.getrandbits(m + 8)
+        if c == 21:     # high and low halves sparse: long runs of zeros in every recoding
+            return ((1 << (cv.nbits - 2)) | rng.getrandbits(16)) % n
+        if c == 22:
+            return rng.getrandbits(rng.choice([8, 16, 32, 63, 64, 65, 128]))
+        return rng.randrange(1, n)
+
+    def paircls(self, cv, k, m):
+        ck, cm = cv.kcls(k), cv.kcls(m)
+        if k == 0 or m == 0:
+            tag = "z"
+        elif abs(k) == 1 or abs(m) == 1:
+            tag = "u"
+        elif ck.startswith("r0") or cm.startswith("r0"):
+            tag = "r0"
+        else:
+            tag = "r"
+        rank = {"z": 0, "in": 1, "ge": 2, "wide": 3, "long": 4}
+        rk = "z" if k == 0 else ck[ck.index("+") + 1 if "+" in ck else ck.index("-") + 1:]
+        rm = "z" if m == 0 else cm[cm.index("+") + 1 if "+" in cm else cm.index("-") + 1:]
+        top = rk if rank[rk] >= rank[rm] else rm
+        if top == "z":
+            top = "in"
+        if top == "long":
+            top = "long:" + ("k" if rk == "long" else "") + ("m" if rm == "long" else "")
+        return tag + ("-" if (k < 0 or m < 0) else "+") + top
+
+    # ------------------------------------------------------------------ verdict
+    def judge(self, cv, res, out, exp, in_range):
+        ctx = self.ctx
+        if res.caught:
+            # 0 <= k < n must work; any other scalar may be refused
+            ctx.check(not in_range, ctx.cur_key + "|unexpected-error", {"err": res.err})
+            return
+        self.expect(cv, out, exp, affine=True)
+
+    def point(self, cv, special=0.12):
+        rng = self.rng
+        c = rng.random()
+        if c < special / 3:
+            return (0, 0)
+        if c < 2 * special / 3:
+            return (0, rng.randrange(1, cv.h))
+        if c < special:
+            return (rng.randrange(1, cv.n), rng.randrange(1, cv.h))
+        if c < special + 0.25:
+            return rng.choice([(1, 0), (2, 0), (cv.n - 1, 0), (3, 0)])
+        return (rng.randrange(1, cv.n), 0)
+
+    # ------------------------------------------------------------------ plain multiplications
+    def mul_case(self, cv, fn, d, k):
+        ctx, R, B = self.ctx, self.R, self.B
+        impl = impl_of(R, fn)
+        key = "%s|%s|%s|%s" % (impl, cv.name, cv.pcls(d), cv.kcls(k))
+        with Case(ctx, key, {"P": dshow(d), "k": hx(k), "via": fn},
+                  nontrivial=cv.pcls(d) != "inf" and k % cv.n != 0) as go:
+            if go:
+                self.put(cv, self.p, cv.aff(d), "B")
+                B.eb_fill(self.r, R.poison)
+                R.bn_put(self.k, k)
+                raw = B.eb_get(self.p)
+                res = R.call(fn, self.r, self.p, self.k)
+                self.judge(cv, res, self.r, cv.aff(cv.dmul(k, d)), cv.in_range(k))
+                ctx.check(B.eb_get(self.p) == raw and R.bn_val(self.k) == k, ctx.cur_key + "|input-modified")
+
+    def gen_case(self, cv, k):
+        ctx, R, B = self.ctx, self.R, self.B
+        key = "eb_mul_gen|%s|sub|%s" % (cv.name, cv.kcls(k))
+        with Case(ctx, key, {"k": hx(k)}, nontrivial=k % cv.n != 0) as go:
+            if go:
+                B.eb_fill(self.r, R.poison)
+                R.bn_put(self.k, k)
+                res = R.call("eb_mul_gen", self.r, self.k)
+                self.judge(cv, res, self.r, cv.aff(cv.dmul(k, (1, 0))), cv.in_range(k))
+
+    def dig_case(self, cv, d, k):
+        ctx, R, B = self.ctx, self.R, self.B
+        kc = "z" if k == 0 else ("u" if k == 1 else ("top" if k >> (R.DIG - 1) else "d"))
+        key = "eb_mul_dig|%s|%s|%s" % (cv.name, cv.pcls(d), kc)
+        with Case(ctx, key, {"P": dshow(d), "k": hx(k)}, nontrivial=cv.pcls(d) != "inf" and k != 0) as go:
+            if go:
+                self.put(cv, self.p, cv.aff(d), "B")
+                B.eb_fill(self.r, R.poison)
+                res = R.call("eb_mul_dig", self.r, self.p, k)
+                self.judge(cv, res, self.r, cv.aff(cv.dmul(k, d)), True)
+
+    # ------------------------------------------------------------------ fixed base
+    def fix_variants(self):
+        out = []
+        for v in ("basic", "combs", "combd", "lwnaf"):
+            if self.has("eb_mul_pre_" + v) and self.has("eb_mul_fix_" + v):
+                out.append(("eb_mul_pre_" + v, "eb_mul_fix_" + v, self.tabsz[v]))
+        for v in ("yaowi", "nafwi"):
+            self.has("eb_mul_pre_" + v)
+            self.has("eb_mul_fix_" + v)
+        if self.has("eb_mul_pre") and self.has("eb_mul_fix"):
+            out.append(("eb_mul_pre", "eb_mul_fix", self.R.K["RLC_EB_TABLE"]))
+        return out
+
+    def fix_table(self, cv, pre, size, d):
+        """exact-size table built by the library for the base point d, or None"""
+        ctx, R, B = self.ctx, self.R, self.B
+        tab = B.eb_new(size)
+        B.eb_fill(tab, R.poison, size)
+        ok = False
+        with Case(ctx, "%s|%s|%s" % (impl_of(R, pre), cv.name, cv.pcls(d)), {"P": dshow(d)},
+                  nontrivial=cv.pcls(d) != "inf", budget=600) as go:
+            if go:
+                self.put(cv, self.p, cv.aff(d), "B")
+                res = R.call(pre, tab, self.p)
+                ok = ctx.check(not res.caught, None, {"err": res.err})
+        if not ok:
+            R.free(tab)
+            return None
+        return tab
+
+    def fix_case(self, cv, fix, tab, d, k, force=False):
+        ctx, R, B = self.ctx, self.R, self.B
+        impl = impl_of(R, fix)
+        kc = cv.kcls(k)
+        if impl == "eb_mul_fix_basic" and kc.endswith("long") and "fix_basic_long" in self.confined and not force:
+            self.stepped += 1
+            return
+        key = "%s|%s|%s|%s" % (impl, cv.name, cv.pcls(d), kc)
+        with Case(ctx, key, {"P": dshow(d), "k": hx(k), "via": fix},
+                  nontrivial=cv.pcls(d) != "inf" and k % cv.n != 0) as go:
+            if go:
+                B.eb_fill(self.r, R.poison)
+                R.bn_put(self.k, k)
+                res = R.call(fix, self.r, tab, self.k)
+                self.judge(cv, res, self.r, cv.aff(cv.dmul(k, d)), cv.in_range(k))
+
+    # ------------------------------------------------------------------ simultaneous
+    def sim_case(self, cv, fn, d, e, rel, k, m, force=False):
+        ctx, R, B = self.ctx, self.R, self.B
+        impl = impl_of(R, fn)
+        gen = impl == "eb_mul_sim_gen"
+        if gen:
+            d = (1, 0)
+        kinds = (cv.pcls(d), cv.pcls(e))
+        if "inf" in kinds:
+            rel = "inf"
+        kind = [c for c in ("o2", "o4", "out", "sub", "inf") if c in kinds][0]
+        sc = self.paircls(cv, k, m)
+        live = k != 0 and m != 0 and "inf" not in kinds
+        if not force:
+            if impl == "eb_mul_sim_trick" and sc.startswith("u") and live and "sim_trick_unit" in self.confined:
+                self.stepped += 1
+                return
+            if impl == "eb_mul_sim_joint" and sc.endswith("long:m") and live and "sim_joint_long_m" in self.confined:
+                self.stepped += 1
+                return
+        key = "%s|%s|%s:%s|%s" % (impl, cv.name, rel, kind, sc)
+        with Case(ctx, key, {"P": dshow(d), "Q": dshow(e), "k": hx(k), "m": hx(m), "via": fn},
+                  nontrivial=live and k % cv.n != 0 and m % cv.n != 0) as go:
+            if go:
+                self.put(cv, self.p, cv.aff(d), "B")
+                self.put(cv, self.q, cv.aff(e), "B")
+                B.eb_fill(self.r, R.poison)
+                R.bn_put(self.k, k)
+                R.bn_put(self.m, m)
+                if gen:
+                    res = R.call(fn, self.r, self.k, self.q, self.m)
+                else:
+                    res = R.call(fn, self.r, self.p, self.k, self.q, self.m)
+                exp = cv.aff(cv.dadd(cv.dmul(k, d), cv.dmul(m, e)))
+                self.judge(cv, res, self.r, exp, cv.in_range(k) and cv.in_range(m))
+
+    def sim_points(self, cv):
+        rng = self.rng
+        d = self.point(cv, special=0.08)
+        c = rng.random()
+        if c < 0.15:
+            return d, d, "eq"
+        if c < 0.3:
+            e = cv.dneg(d)
+            return d, e, ("eq" if e == (d[0] % cv.n, d[1] % cv.h) else "neg")
+        e = self.point(cv, special=0.08)
+        dn, en = (d[0] % cv.n, d[1] % cv.h), (e[0] % cv.n, e[1] % cv.h)
+        return d, e, ("eq" if dn == en else ("neg" if cv.dneg(d) == en else "ne"))
+
+    # ------------------------------------------------------------------ drivers
+    def sacrificial(self, cv):
+        """the single directed case of every confined known fatal class"""
+        R = self.R
+        n = cv.n
+        d = (5, 0)
+        if "fix_basic_long" in self.confined and self.has("eb_mul_pre_basic"):
+            tab = self.fix_table(cv, "eb_mul_pre_basic", self.tabsz["basic"], d)
+            if tab:
+                self.fix_case(cv, "eb_mul_fix_basic", tab, d, (1 << (self.B.m + 1)) + 12345, force=True)
+                R.free(tab)
+        if "sim_trick_unit" in self.confined and self.has("eb_mul_sim_trick"):
+            self.sim_case(cv, "eb_mul_sim_trick", d, (7, 0), "ne", 1, n - 2, force=True)
+        if "sim_joint_long_m" in self.confined and self.has("eb_mul_sim_joint"):
+            self.sim_case(cv, "eb_mul_sim_joint", d, (7, 0), "ne", 3, (1 << (self.B.m + 1)) + 5, force=True)
+
+    def directed_scalars(self, cv):
+        n, m = cv.n, self.B.m
+        return [0, 1, -1, 2, 3, n - 1, n, n + 1, 2 * n, 2 * n + 1, 2 * n - 1, -n, -(n - 1), n - 2, (n - 1) // 2, (n + 1) // 2,
+                1 << (cv.nbits - 1), (1 << (cv.nbits - 1)) - 1, (1 << cv.nbits) - 1, 1 << (m - 1), (1 << m) - 1, 1 << m,
+                (1 << (m + 2)) - 1, 1 << (m + 2), n * n, (1 << 300) + 7]
+
+    def run_curve(self, cv, N):
+        ctx, R, rng = self.ctx, self.R, self.rng
+        muls = [fn for fn in ("eb_mul_basic", "eb_mul_lodah", "eb_mul_lwnaf", "eb_mul_rwnaf", "eb_mul_halve", "eb_mul")
+                if self.has(fn)]
+        sims = [fn for fn in ("eb_mul_sim_basic", "eb_mul_sim_trick", "eb_mul_sim_inter", "eb_mul_sim_joint",
+                              "eb_mul_sim_gen", "eb_mul_sim") if self.has(fn)]
+        fixes = self.fix_variants()
+        # ---- directed: every routine sees every distinguished scalar on G and on one random subgroup point
+        ds = self.directed_scalars(cv)
+        rp = (rng.randrange(2, cv.n), 0)
+        i = 0
+        for k in ds:
+            for fn in muls:
+                for d in ((1, 0), rp):
+                    if ctx.mine(i):
+                        self.mul_case(cv, fn, d, k)
+                    i += 1
+            if ctx.mine(i):
+                self.gen_case(cv, k)
+            i += 1
+        for k in (0, 1, 2, 3, 255, (1 << R.DIG) - 1, 1 << (R.DIG - 1)):
+            for d in ((1, 0), rp, (0, 0), (0, cv.h // 2)):
+                if ctx.mine(i):
+                    self.dig_case(cv, d, k)
+                i += 1
+        for pre, fix, size in fixes:
+            if ctx.mine(i):
+                for d in ((1, 0), rp):
+                    tab = self.fix_table(cv, pre, size, d)
+                    if tab:
+                        for k in ds:
+                            self.fix_case(cv, fix, tab, d, k)
+                        R.free(tab)
+            i += 1
+        # exceptional points through every routine
+        for d in ((0, 0), (0, cv.h // 2), (0, 1), (rp[0], cv.h // 2), (rp[0], 1)):
+            for fn in muls:
+                for k in (1, 2, 3, cv.n - 1, rng.randrange(1, cv.n), cv.n, -1):
+                    if ctx.mine(i):
+                        self.mul_case(cv, fn, d, k)
+                    i += 1
+        small = [0, 1, -1, 2, 3, cv.n - 1, cv.n, cv.n + 1, -cv.n, rng.randrange(1, cv.n), (1 << self.B.m) + 9]
+        for fn in sims:
+            for (d, e, rel) in (((1, 0), rp, "ne"), (rp, rp, "eq"), (rp, cv.dneg(rp), "neg"), ((0, 0), rp, "inf"),
+                                (rp, (0, 0), "inf"), ((1, 0), (0, cv.h // 2), "ne")):
+                for k in small:
+                    for m in small:
+                        if ctx.mine(i):
+                            self.sim_case(cv, fn, d, e, rel, k, m)
+                        i += 1
+        # ---- random
+        ops = ["mul"] * 10 + ["gen"] * 2 + ["dig"] + ["fix"] * 6 + ["sim"] * 8
+        it = 0
+        while it < N:
+            R.poison = rng.randrange(1, 256)
+            op = rng.choice(ops)
+            if op == "mul":
+                self.mul_case(cv, rng.choice(muls), self.point(cv), self.scalar(cv))
+                it += 1
+            elif op == "gen":
+                self.gen_case(cv, self.scalar(cv))
+                it += 1
+            elif op == "dig":
+                self.dig_case(cv, self.point(cv), rng.choice([0, 1, 2, rng.getrandbits(R.DIG), rng.getrandbits(8),
+                                                              (1 << R.DIG) - 1]))
+                it += 1
+            elif op == "fix" and fixes:
+                pre, fix, size = rng.choice(fixes)
+                d = self.point(cv, special=0.1)
+                tab = self.fix_table(cv, pre, size, d)
+                if tab:
+                    for _ in range(8):
+                        self.fix_case(cv, fix, tab, d, self.scalar(cv))
+                        it += 1
+                    R.free(tab)
+                else:
+                    it += 1
+            else:
+                d, e, rel = self.sim_points(cv)
+                self.sim_case(cv, rng.choice(sims), d, e, rel, self.scalar(cv, 0.35), self.scalar(cv, 0.35))
+                it += 1
+
+
+def run_mul_part(ctx, R, B):
+    mp = MulPart(ctx, R, B)
+    ids = open_curves(ctx, R, B)
+    if not ids:
+        raise RuntimeError("no binary curve accepted by eb_param_set in this build")
+    cvs = [Cv(R, B, nm, v) for nm, v in ids]
+    # known fatal classes first (a report costs a restart of this worker)
+    if ctx.shard == 0:
+        for cv in cvs:
+            R.call("eb_param_set", cv.ident)
+            mp.sacrificial(cv)
+    N = ctx.n(900, 16000)
+    for cv in cvs:
+        R.call("eb_param_set", cv.ident)
+        mp.run_curve(cv, N // len(cvs))
+    ctx.note("curves", [{"curve": cv.name, "n": hx(cv.n), "h": cv.h, "koblitz": cv.kbltz} for cv in cvs])
+    ctx.note("functions_not_built", sorted(mp.not_built))
+    ctx.note("confined_known_fatal", sorted(mp.confined))
+    ctx.add("cases_stepped_around_confined_known_fatal", mp.stepped)
+
+
 def run(ctx, part):
     R = RT(ctx.cfg)
     B = BX(R)
@@ -1489,5 +1890,7 @@ def run(ctx, part):
         run_field_part(ctx, R, B)
     elif part == "curve":
         run_curve_part(ctx, R, B)
+    elif part == "mul":
+        run_mul_part(ctx, R, B)
     ctx.note("functions_exercised", sorted(R.fn_seen))
     ctx.note("error_codes_seen", {str(k): v for k, v in R.err_codes.items()})
